@@ -6,7 +6,7 @@
 From Coq Require Import Permutation.
 From FrameModel Require Import Num.QcTac Geometry.Rect Yaml.Tree Yaml.NetlistRead
   Yaml.NetlistWrite Yaml.NetlistFacts Yaml.NetlistDerived Yaml.NetlistRoundTrip
-  Yaml.NetlistImage Yaml.NetlistDoc Yaml.NetlistAccept Yaml.NetlistReadNames.
+  Yaml.NetlistImage Yaml.NetlistDoc Yaml.NetlistAccept Yaml.NetlistReadNames Yaml.NetlistReadForms.
 Open Scope Qc_scope.
 
 (* ---- derived quantities ---- *)
@@ -315,3 +315,31 @@ Theorem C05_accept_rewritten : forall sqrt_o e t n,
   exists n', read_netlist sqrt_o e (NetlistWrite.write_netlist n) = Ok n'.
 Proof. exact accept_rewritten. Qed.
 Print Assumptions C05_accept_rewritten.
+
+(* ---- input forms and sessions ---- *)
+(* Netlist(x) takes a tree, a YAML text (a str containing ': '), the name of a
+   file, or anything else (refused).  [yaml_load] / [file_text] stand for the
+   text layer (ruamel, the file system); nothing is assumed about them.
+   Whatever the form, a design is loaded only if read_netlist loads the tree
+   the source stands for - so every rejection theorem above holds for every
+   input form. *)
+Theorem C05_source_loaded_inv : forall sqrt_o yaml_load file_text e src n,
+  read_source sqrt_o yaml_load file_text e src = Loaded n ->
+  exists t, read_netlist sqrt_o e t = Ok n /\
+    match src with
+    | SrcTree t' => t' = t
+    | SrcStr s => exists txt, (if has_colon_space s then Some s else file_text s) = Some txt /\
+                              yaml_load txt = Some t
+    | SrcOther => False
+    end.
+Proof. exact source_loaded_inv. Qed.
+Print Assumptions C05_source_loaded_inv.
+
+(* history independence: whatever the process loaded, rejected or wrote before
+   (other designs with the same module names, the same source, a defective
+   variant), a load from an undefined epsilon gives what it gives alone *)
+Theorem C05_session_load_alone : forall sqrt_o yaml_load file_text ops src,
+  run sqrt_o yaml_load file_text (ops ++ [OpLoad src]) =
+  (run sqrt_o yaml_load file_text ops ++ [EvLoad (read_source sqrt_o yaml_load file_text None src)])%list.
+Proof. exact session_load_alone. Qed.
+Print Assumptions C05_session_load_alone.
